@@ -71,6 +71,7 @@ def main():
             if ev_keep is not None:
                 ev.write_text(ev_keep)
             vio = [ln for ln in c.stdout.splitlines() if ln.startswith(('VIOLATION', 'KNOWN-FINDING'))]
+            vio.sort(key=lambda ln: not ln.startswith('VIOLATION'))     # violations first (C19 prints dozens of listed findings)
             meta['checks'][pr] = {'rc': c.returncode, 'lines': vio[:5]}
             # keep one replay as an example of what the check reports
             if vio and vio[0].startswith('VIOLATION'):
